@@ -31,7 +31,7 @@ def plan(tier, seed):
     k = 8 if tier == "quick" else 64
     n_static = 1500 if tier == "quick" else 12000
     n_hist = 1200 if tier == "quick" else 10000
-    return [{"kind": "mixed", "sub": i, "n_static": n_static, "n_hist": n_hist} for i in range(k)] + [{"kind": "repo-tests", "part": "linear"}]
+    return [{"kind": "mixed", "sub": i, "n_static": n_static, "n_hist": n_hist} for i in range(k)] + [{"kind": "repo-tests", "part": "linear"}, {"kind": "insitu-exports", "n": 150 if tier == "quick" else 2000}]
 
 
 def floors(tier):
@@ -238,6 +238,14 @@ def worker(ctx, shard):
 
         mon.uninstall()
         workload_r.judge(ctx, shard["part"])
+        return
+    if shard["kind"] == "insitu-exports":
+        from props import export_common as EC
+
+        EC.insitu_exports(ctx, mon, lambda: mon.events["eval.__call__"] + mon.events["endpoint_invariant"], shard["n"])
+        for k, v in mon.events.items():
+            ctx.event("insitu." + k, v)
+        mon.uninstall()
         return
     rng = ctx.rng("mixed%d" % shard["sub"])
     for _ in range(shard["n_static"]):
